@@ -253,7 +253,8 @@ PouProds == [
                  Pr("vspecio:enum", 1, <<T("("), Nil, N("enumval"), S, N("enumvals_r"), T(")"), None, R("EnumInline", 2)>>),
                  Pr("vspecio:subrange", 1, <<L("itype"), T("("), L("sint"), T(".."), L("sint"), T(")"), None, R("SubrInline", 4)>>),
                  Pr("vspecio:array", 1, <<N("arrspec"), Nil, R("ArrInline", 3)>>),
-                 Pr("vspecio:string", 1, <<T("STRING"), PV("STRING"), N("str_len"), None, R("StrSpec", 3)>>) },
+                 Pr("vspecio:string", 1, <<T("STRING"), PV("STRING"), N("str_len"), None, R("StrSpec", 3)>>),
+                 Pr("vspecio:wstring", 1, <<T("WSTRING"), PV("WSTRING"), N("str_len"), None, R("StrSpec", 3)>>) },
   group_io |-> { Pr("", 0, <<N("names"), T(":"), N("vspec_io"), R("Group", 2)>>) },
   groups_io_r |-> { Eps, Pr("block:more", 1, <<N("group_io"), S, T(";"), N("groups_io_r")>>) },
   \* external_declaration: name : simple_specification
